@@ -23,10 +23,11 @@ QUTIP_CONST = {"sigmax": ("2", "!![0, 1; 1, 0]"), "sigmay": ("2", "!![0, -Comple
 class Tr:
     """mode 'C': noncomputable ℂ terms (theorems);  mode 'F': computable complex floats (translator validation)."""
 
-    def __init__(self, params, known, mode="C"):
+    def __init__(self, params, known, mode="C", env=None):
         self.params = params
         self.known = known   # name -> (dim, param names) of already translated functions
         self.mode = mode
+        self.env = env or {}  # local scalar assignments `c = np.cos(theta / 2)` of the function body (inlined)
 
     def num(self, v):
         if self.mode == "F":
@@ -63,6 +64,8 @@ class Tr:
         if isinstance(e, ast.Name):
             if e.id in self.params:
                 return f"({e.id} : ℂ)" if self.mode == "C" else f"(CF.ofReal {e.id})"
+            if e.id in self.env:
+                return self.scalar(self.env[e.id])
             raise TranslatorError(f"unknown name {e.id}")
         if isinstance(e, ast.Attribute) and isinstance(e.value, ast.Name) and e.value.id == "np" and e.attr == "pi":
             return "(Real.pi : ℂ)" if self.mode == "C" else "CF.pi"
@@ -78,6 +81,9 @@ class Tr:
             f = e.func.attr
             if f in ("cos", "sin", "exp"):
                 return f"({'Complex' if self.mode == 'C' else 'CF'}.{f} {self.scalar(e.args[0])})"
+            if f in ("conj", "conjugate"):
+                return (f"((starRingEnd ℂ) {self.scalar(e.args[0])})" if self.mode == "C"
+                        else f"(CF.conj {self.scalar(e.args[0])})")
             if f == "sqrt":
                 a = e.args[0]
                 if isinstance(a, ast.Constant) and float(a.value) == int(a.value) and a.value >= 0:
@@ -166,8 +172,13 @@ def translate_gates():
         rets = [st for st in body if isinstance(st, ast.Return)]
         if not rets:
             raise TranslatorError(f"{name}: no top-level return")
-        d, term = Tr(params, known).matrix(rets[-1].value)
-        _, termF = Tr(params, known, "F").matrix(rets[-1].value)
+        env = {}
+        for st in body:   # simple local definitions at the top level of the body are inlined
+            if isinstance(st, ast.Assign) and len(st.targets) == 1 and isinstance(st.targets[0], ast.Name) \
+                    and st.targets[0].id not in params:
+                env[st.targets[0].id] = st.value
+        d, term = Tr(params, known, "C", env).matrix(rets[-1].value)
+        _, termF = Tr(params, known, "F", env).matrix(rets[-1].value)
         known[name] = (d, params)
         sig = "".join(f" ({p} : ℝ)" for p in params)
         defs.append(f"noncomputable def {name}_{sig} : Matrix (Fin {d}) (Fin {d}) ℂ :=\n  {term}\n")
